@@ -232,7 +232,7 @@ func runC14(tier string) int {
 	r.Assume("multipliers with a leading zero are not generated (octal vs decimal is not specified)",
 		"expected expansion is computed by the generator: N copies in order, cut after the first step_end, exactly one step_end last")
 	return r.Finish(r.Get("evaluations"), r.Get("nontrivial"),
-		"every movement list of <= L elements over 43 element kinds (3 steps x 12 multipliers incl. 0, negative, 9999, 10000, hex and a 20-digit number; 7 poryswitch-selected segments in colon, brace and nested forms incl. a nested poryswitch as the element of a colon case that other cases follow) x statement / moves() form (and two moves() in one script that differ only in the length of the last run) x 3 separator styles; every mart list of <= M items over plain items, ITEM_NONE, constants (one equal to ITEM_NONE) and poryswitch segments; plus 'step * N' for every N in 1..10005, decimal and hex, statement and moves(); plus lists of K different steps and marts of K items for every K up to the bound in the coverage; plus every identifier-like literal of the compiler's own source as a step and as a mart item; plus one script holding every moves() list of 6 (thorough 7) steps over 8 names; every file defines constants named like the case labels; non-trivial = a multiplier > 1 or a multi-step segment is present")
+		"every movement list of <= L elements over 43 element kinds (3 steps x 12 multipliers incl. 0, negative, 9999, 10000, hex and a 20-digit number; 7 poryswitch-selected segments in colon, brace and nested forms incl. a nested poryswitch as the element of a colon case that other cases follow) x statement / moves() form (and two moves() in one script that differ only in the length of the last run) x 3 separator styles; every mart list of <= M items over plain items, ITEM_NONE, constants (one equal to ITEM_NONE) and poryswitch segments; plus 'step * N' for every N in 1..10005, decimal and hex, statement and moves(); plus lists of K different steps and marts of K items for every K up to the bound in the coverage; plus every identifier-like literal of the compiler's own source as a step and as a mart item; plus one script holding every moves() list of 6 (thorough 7) steps over 8 names; plus one script with a list of 41 steps for every 2-character (thorough 3-character) ending of its last step name; plus lists with J elements of multiplier 9999 each for every J up to the bound in the coverage; every file defines constants named like the case labels; non-trivial = a multiplier > 1 or a multi-step segment is present")
 }
 
 // c14Scaled: the size dimension. Every multiplier value from 1 to 10005,
@@ -331,7 +331,42 @@ func c14Scaled(r *harness.Run, tier string) {
 			r.Report(harness.Violation{Sig: fmt.Sprintf("C14:long-list:form%d", form), Summary: fmt.Sprintf("list of %d elements (form %d): error %v, block %q", k, form, res.Err, clip(strings.Join(got, "\n"), 300)), Replay: map[string]interface{}{"source": src, "want": want, "output": res.Out}})
 		}
 	})
-	if !done || !done2 {
+	// lists with J elements of multiplier 9999 each (total expansion J * 9999 steps; no total-size limit is documented)
+	maxJ := 8
+	if tier == "thorough" {
+		maxJ = 16
+	}
+	done3 := r.Parallel(uint64(maxJ)*2, func(w int, idx uint64) {
+		j, form := int(idx/2)+1, int(idx%2)
+		var parts []string
+		for i := 0; i < j; i++ {
+			parts = append(parts, fmt.Sprintf("h%d * 9999", i))
+		}
+		var src, label string
+		if form == 0 {
+			src, label = "movement M {\n\t"+strings.Join(parts, "\n\t")+"\n}\n", "M"
+		} else {
+			src, label = "script S {\n\tapplymovement(1, moves("+strings.Join(parts, " ")+"))\n}\n", "S_Movement_0"
+		}
+		res := comp.Compile(src, comp.Opts{Optimize: true})
+		r.Add("evaluations", 1)
+		r.Add("heavy_lists", 1)
+		got, ok := blockAfter(res.Out, label)
+		good := res.Err == nil && res.Panic == "" && ok && len(got) == j*9999+2 && got[len(got)-1] == "\tstep_end"
+		for i := 0; good && i < j; i++ {
+			for _, l := range got[1+i*9999 : 1+(i+1)*9999] {
+				if l != fmt.Sprintf("\th%d", i) {
+					good = false
+					break
+				}
+			}
+		}
+		if !good {
+			r.Report(harness.Violation{Sig: fmt.Sprintf("C14:heavy-list:form%d", form), Summary: fmt.Sprintf("list of %d elements with multiplier 9999 (form %d): error %v %s, block of %d lines, want %d", j, form, res.Err, firstLine(res.Panic), len(got), j*9999+2), Replay: map[string]interface{}{"source": src}})
+		}
+	})
+	r.Set("heavy_list_max_elements", maxJ)
+	if !done || !done2 || !done3 {
 		r.NotExhaustive("scaled movement / mart lists not completed")
 	}
 	r.Set("long_list_max_elements", maxK)
@@ -350,30 +385,68 @@ func c14MassFile(r *harness.Run, tier string) {
 	for i := 0; i < L; i++ {
 		n *= len(names)
 	}
+	stepsOf := func(i int) ([]string, []string) {
+		st := make([]string, L)
+		for k := range st {
+			st[k] = names[i%len(names)]
+			i /= len(names)
+		}
+		return st, st
+	}
+	massMovesFile(r, "C14", "c14MassFile", n, stepsOf)
+	massLongLists(r, "C14", tier)
+}
+
+// massLongLists: one script with every list "walk_up * 40, m_<xy>" for <xy> over all strings of 2 (thorough: also 3)
+// characters from [a-z0-9_]: lists of 41 steps that differ in the last step name only, by every small difference in its
+// last characters. (A de-duplication that looks at a summary of a long list - its length, a checksum, a prefix - instead
+// of the list merges some of them.)
+func massLongLists(r *harness.Run, id, tier string) {
+	const alpha = "abcdefghijklmnopqrstuvwxyz0123456789_"
+	for _, chars := range []int{2, 3} {
+		if chars == 3 && tier != "thorough" {
+			break
+		}
+		n := 1
+		for i := 0; i < chars; i++ {
+			n *= len(alpha)
+		}
+		prefix := make([]string, 40)
+		for i := range prefix {
+			prefix[i] = "walk_up"
+		}
+		stepsOf := func(i int) ([]string, []string) {
+			name := []byte("m_")
+			for k := 0; k < chars; k++ {
+				name = append(name, alpha[i%len(alpha)])
+				i /= len(alpha)
+			}
+			return []string{"walk_up * 40", string(name)}, append(append([]string{}, prefix...), string(name))
+		}
+		massMovesFile(r, id, fmt.Sprintf("massLongLists/%d", chars), n, stepsOf)
+	}
+}
+
+// massMovesFile compiles one script with n commands, the i-th taking moves(<written steps of i>), and demands that each
+// command refers to a block of its own (expanded) steps, labelled in order of first use.
+func massMovesFile(r *harness.Run, id, generator string, n int, stepsOf func(i int) (written, expanded []string)) {
 	if r.Expired() {
 		r.NotExhaustive("mass movement file not run")
 		return
 	}
 	var sb strings.Builder
 	sb.WriteString("script S {\n")
-	stepsOf := func(i int) []string {
-		st := make([]string, L)
-		for k := range st {
-			st[k] = names[i%len(names)]
-			i /= len(names)
-		}
-		return st
-	}
 	for i := 0; i < n; i++ {
-		fmt.Fprintf(&sb, "\tam(%d, moves(%s))\n", i, strings.Join(stepsOf(i), " "))
+		wr, _ := stepsOf(i)
+		fmt.Fprintf(&sb, "\tam(%d, moves(%s))\n", i, strings.Join(wr, " "))
 	}
 	sb.WriteString("}\n")
 	res := comp.Compile(sb.String(), comp.Opts{Optimize: true})
 	r.Add("evaluations", 1)
 	r.Add("nontrivial", 1)
-	r.Set("mass_file_moves_lists", n)
+	r.Add("mass_file_moves_lists", int64(n))
 	if res.Err != nil || res.Panic != "" {
-		r.Report(harness.Violation{Sig: "C14:mass:rejected", Summary: fmt.Sprintf("script with %d moves() lists rejected: %v %s", n, res.Err, firstLine(res.Panic)), Replay: map[string]interface{}{"lists": n}})
+		r.Report(harness.Violation{Sig: id + ":mass:rejected", Summary: fmt.Sprintf("script with %d moves() lists rejected: %v %s", n, res.Err, firstLine(res.Panic)), Replay: map[string]interface{}{"lists": n, "generator": generator}})
 		return
 	}
 	blocks := map[string][]string{}
@@ -386,7 +459,7 @@ func c14MassFile(r *harness.Run, tier string) {
 		case line[0] != '\t':
 			cur = strings.TrimRight(line, ":")
 			if _, dup := blocks[cur]; dup {
-				r.Report(harness.Violation{Sig: "C14:mass:label-twice", Summary: "label " + cur + " defined twice in the mass file", Replay: map[string]interface{}{"lists": n, "label": cur}})
+				r.Report(harness.Violation{Sig: id + ":mass:label-twice", Summary: "label " + cur + " defined twice in the mass file", Replay: map[string]interface{}{"lists": n, "label": cur, "generator": generator}})
 			}
 			blocks[cur] = []string{}
 		case strings.HasPrefix(line, "\tam "):
@@ -401,7 +474,8 @@ func c14MassFile(r *harness.Run, tier string) {
 	}
 	bad, first := 0, -1
 	for i := 0; i < n; i++ {
-		want := append(stepsOf(i), "step_end")
+		_, ex := stepsOf(i)
+		want := append(append([]string{}, ex...), "step_end")
 		got := blocks[labelOf[i]]
 		if labelOf[i] != fmt.Sprintf("S_Movement_%d", i) || strings.Join(got, " ") != strings.Join(want, " ") {
 			bad++
@@ -411,7 +485,8 @@ func c14MassFile(r *harness.Run, tier string) {
 		}
 	}
 	if bad > 0 {
-		r.Report(harness.Violation{Sig: "C14:mass:block-differs", Summary: fmt.Sprintf("script with %d different moves() lists: %d commands do not refer to a block of their own steps, e.g. list %d %v -> %s %v", n, bad, first, stepsOf(first), labelOf[first], blocks[labelOf[first]]), Replay: map[string]interface{}{"lists": n, "first_bad_index": first, "steps": stepsOf(first), "label": labelOf[first], "generator": "c14MassFile"}})
+		wr, _ := stepsOf(first)
+		r.Report(harness.Violation{Sig: id + ":mass:block-differs", Summary: fmt.Sprintf("script with %d different moves() lists: %d commands do not refer to a block of their own steps, e.g. list %d %v -> %s %s", n, bad, first, wr, labelOf[first], clip(strings.Join(blocks[labelOf[first]], " "), 200)), Replay: map[string]interface{}{"lists": n, "first_bad_index": first, "steps": wr, "label": labelOf[first], "generator": generator}})
 	}
 }
 
